@@ -48,7 +48,7 @@ static char PAY[MAXMSG];                  /* plain payload cells (identity) */
 
 /* pending deliveries of a module (mailbox + accumulated batch), in send order */
 #define MAXMB 24
-typedef struct { int msg; int optional; unsigned pats; int kind; int key; int prio; int after_pill; unsigned char gens[NPAT]; unsigned oneshots; } pend_t;      /* oneshots: patterns whose subscription was one-shot when the message was sent */   /* prio: priority of the matching subscription when sent (-1: several candidates) */   /* kind: 0 ps message, 1 fd readiness, 2 timer expiry */
+typedef struct { int msg; int optional; unsigned pats; int kind; int key; int prio; int after_pill; unsigned char gens[NPAT]; unsigned oneshots; int maybe_recvd; } pend_t;      /* maybe_recvd: a dispatch ran while it was pending for a RUNNING module: the library may already hold it in its batch queue */      /* oneshots: patterns whose subscription was one-shot when the message was sent */   /* prio: priority of the matching subscription when sent (-1: several candidates) */   /* kind: 0 ps message, 1 fd readiness, 2 timer expiry */
 
 /* user-held / stashed event records */
 typedef struct { const m_evt_t *p; int kind, msg, key; const void *ud; int refs; int prio; } evrec_t;
